@@ -276,6 +276,27 @@ def eval_terms(ts):
     return math.fsum(vals)
 
 
+def eval_roots(ns, coef):
+    """value of the driver's root-of-unity polynomials: entry [flat exponent index (C order over ns), re, im] stands for
+    (re + i im) * prod_a exp(-2 pi i / ns[a]) ** e_a"""
+    out = []
+    for cell in coef:
+        row = []
+        for comp in cell:
+            z = 0j
+            for k, re, im in comp:
+                e, rem = [], int(k)
+                for nn in reversed(ns):
+                    e.append(rem % nn)
+                    rem //= nn
+                e.reverse()
+                ph = sum(ea / na for ea, na in zip(e, ns))
+                z += complex(float(F(re)), float(F(im))) * complex(math.cos(-2 * math.pi * ph), math.sin(-2 * math.pi * ph))
+            row.append(z)
+        out.append(row)
+    return out
+
+
 def near(a, b, scale, tol=TOL):
     return abs(float(a) - float(b)) <= tol * max(scale, abs(float(b)))
 
@@ -672,6 +693,8 @@ def run_dfield(case, rng, obs, fail):
     obs["tensor"] = dict(shape=[2 * k - 1 for k in n], data=[Qs(row) for row in Tv.reshape(-1, 6).tolist()])
     obs["res"] = H
     obs["scale"] = float(np.abs(Tv).max() * np.abs(marr).max() * np.prod(n) * 3) or 1.0
+    # the code-shaped model path (pad, fftn, products, ifftn, crop over formal roots of unity) is run on small padded grids
+    obs["fft"] = int(np.prod([2 * k - 1 for k in n])) <= 15
     if not (H.mesh == mesh and H.nvdim == 3):
         fail("demag_field: result is not a 3-component field on the magnetisation's mesh")
     # linearity in m
@@ -803,7 +826,10 @@ def model_requests(case, obs):
             reqs.append(dict(op="demag_cells", mesh=obs["mesh"], pi=PI_Q, field_based=True, cells=cells))
         return reqs
     if k == "dfield":
-        return [dict(op="demag_field", field=obs["field"], tensor=obs["tensor"])]
+        reqs = [dict(op="demag_field", field=obs["field"], tensor=obs["tensor"])]
+        if obs.get("fft"):
+            reqs.append(dict(op="demag_field_fft", field=obs["field"], tensor=obs["tensor"]))
+        return reqs
     if k == "refuse":
         f, d0 = obs["field"], obs["d0"]
         return [dict(op="tcd", field=f, method="continuous", pi=PI_Q), dict(op="tcd", field=f, method="berg-luescher", pi=PI_Q),
@@ -978,6 +1004,18 @@ def compare(case, obs, rs):
         H = obs["res"]
         cmp_mesh("demag_field mesh", H.mesh, r["ok"]["mesh"], dis)
         cmp_values("demag_field", H.array, r["ok"]["data"], obs["scale"], dis)
+        if len(rs) > 1:
+            r2 = rs[1]
+            if "ok" not in r2:
+                return dis + [f"demag_field (FFT-shaped model): impl ok vs model {r2}"]
+            cmp_mesh("demag_field (FFT-shaped model) mesh", H.mesh, r2["ok"]["mesh"], dis)
+            vals = eval_roots(r2["ok"]["ns"], r2["ok"]["coef"])
+            flat = np.asarray(H.array, dtype=float).reshape(len(vals), -1)
+            for kc, row in enumerate(vals):
+                for c, z in enumerate(row):
+                    if not near(flat[kc, c], z.real, obs["scale"], 1e-8) or abs(z.imag) > 1e-8 * obs["scale"]:
+                        dis.append(f"demag_field (FFT-shaped model): value at flat cell {kc} comp {c}: impl {flat[kc, c]!r} vs model {z!r}")
+                        return dis
     elif k == "refuse":
         sts = obs["st"]
         names = ["tcd_c", "tcd_b", "emergent", "angle", "angle_dir", "angle_units", "bps", "bps_dir"]
